@@ -23,7 +23,7 @@ func registerC15() {
 		Level: "exploration",
 		Rule: "every entry of the live lookup table (hook), every known message number and every member of the 17 file containers is examined; a case is one " +
 			"(message, field) entry (static agreement of entry, struct field type and constructor value) and, dynamically, one stream carrying exactly that field at profile size " +
-			"decoded under every container hosting the message (else Activity) and re-encoded when hosted; plus, per known message and hosting container, two streams in which the message arrives under a compressed timestamp header (zero-field definition; every other field defined and invalid): the carried time must land in the struct field the table gives for field 253 and nowhere else; and per entry a definition with each of the 17 base types (three sizes, both byte orders, header profile version at and above the library's own): rejected, or decoded and re-encoded without a panic; non-trivial: the entry exists and was compared",
+			"decoded under every container hosting the message (else Activity) and re-encoded when hosted; plus, per known message and hosting container, two streams in which the message arrives under a compressed timestamp header (zero-field definition; every other field defined and invalid): the carried time must land in the struct field the table gives for field 253 and nowhere else; and per entry a definition with each of the 17 base types (three sizes, both byte orders, header profile version at and above the library's own): rejected, or decoded and re-encoded without a panic; the same probe also as a repeat of the field number after a conforming entry in one definition: no panic in Decode or re-Encode; non-trivial: the entry exists and was compared",
 		Assume: []string{
 			"the bundled SDK 21.40 workbook, read by the harness's own xlsx reader, is the independent source for field numbers and names; the 23 table entries newer than 21.40 are compared with ref/sdk21115.go, a list written down at development time and reviewed by hand against the SDK 21.115 profile (a pinned record, not a second derivation)",
 		},
